@@ -25,7 +25,9 @@ def demo(root, demo_path):
 
 def main():
     pid, x = sys.argv[1], sys.argv[2]
-    wt = f"/tmp/wt/{pid.lower()}"
+    base = os.environ.get("WT_BASE", "/tmp/wt")
+    prefix = os.environ.get("SEED_PREFIX", "")
+    wt = f"{base}/{pid.lower()}"
     sd = os.path.join(wt, "_seed", x)
     for f in ("patch.diff", "demo.py"):
         if not os.path.isfile(os.path.join(sd, f)):
@@ -50,7 +52,7 @@ def main():
         ok = rc0 == 0 and rc1 != 0 and not missing and comp.returncode == 0 and all(t.startswith("ceos_alos2/") and "/tests/" not in t for t in touched)
         print(f"{pid}-{x}: touched={touched} suite_regressions={len(missing)} (passed {npass}) demo_without={'pass' if rc0 == 0 else 'FAIL'} [{t0[:60]}] demo_with={'fail' if rc1 else 'PASS'} [{t1[:60]}] -> {'KEEP' if ok else 'REJECT'}")
         if ok:
-            dest = os.path.join(VERIF, "seeded", f"{pid.lower()}-{x}")
+            dest = os.path.join(VERIF, "seeded", f"{prefix}{pid.lower()}-{x}")
             if os.path.isdir(dest):
                 shutil.rmtree(dest)
             os.makedirs(dest)
